@@ -276,7 +276,11 @@ func runChildren(self string, jobs []job, dir string, patience time.Duration) ([
 				if st, err := os.Stat(outPath); err == nil && st.Size() != lastSize {
 					lastSize, lastChange = st.Size(), time.Now()
 				}
-				if time.Since(lastChange) > patience {
+				limit := patience
+				if lastSize <= 0 {
+					limit = patience + 3*time.Minute // loading the job file comes first
+				}
+				if time.Since(lastChange) > limit {
 					hung = true
 					_ = cmd.Process.Kill()
 					werr = <-done
@@ -369,10 +373,17 @@ func main() {
 			hi[k] = r.Proto
 		}
 	}
-	nMut, nRand := 5, 2
+	hiProto := regs[len(regs)-1].Proto
+	for _, r := range regs {
+		if r.Proto > hiProto {
+			hiProto = r.Proto
+		}
+	}
+	nMut, nRand := 3, 2
 	if f.Tier != "quick" {
 		nMut, nRand = 16, 6
 	}
+	tagsBombs := 1 // thorough: one TagsUpdate registration gets the full 2^31-1 counts (each costs a killed child)
 	var jobs []job
 	add := func(r pktgen.Reg, kind string, body []byte) {
 		jobs = append(jobs, job{State: r.StateName, Dir: int(r.Dir), Proto: int(r.Proto), ID: int(r.ID), Body: hex.EncodeToString(body), Kind: kind, Type: r.Type.String()})
@@ -386,8 +397,11 @@ func main() {
 		// recorded finding C05-1: a TagsUpdate count of 2^31-1 makes the process allocate until it is killed (each such
 		// payload costs one watchdog period); the quick tier shows the same defect with 2^20 (56 MB for 3 bytes)
 		huge := 1<<31 - 1
-		if tn == "config.TagsUpdate" && f.Tier == "quick" {
-			huge = 1 << 20
+		if tn == "config.TagsUpdate" {
+			if f.Tier == "quick" || tagsBombs <= 0 {
+				huge = 1 << 20
+			}
+			tagsBombs--
 		}
 		for i := 0; i < nRand; i++ {
 			add(r, "random", cr.Bytes(cr.Pick(0, 1, 2, 5, 17, 40, 300)))
@@ -435,6 +449,10 @@ func main() {
 			for _, nm := range names {
 				add(r, "brigadier-"+nm, bodies[nm])
 			}
+			if f.Tier == "thorough" && r.Proto == hiProto {
+				// recorded finding C05-2 (quadratic graph resolution): one body of 160000 nodes, about 1.1 MB
+				add(r, "brigadier-redirect-random-chain-large", commandBodies(cr, 160000)["redirect-random-chain"])
+			}
 		}
 	}
 	self, err := os.Executable()
@@ -453,7 +471,7 @@ func main() {
 		body, _ := hex.DecodeString(j.Body)
 		oc := map[string]string{"packet": "OPacket", "error": "OError", "panic": "OPanic"}[r.Outcome]
 		bterm := "None"
-		if frag[j.Type] && len(body) <= 300 {
+		if frag[j.Type] && len(body) <= 120 && j.Kind != "random" {
 			bterm = lib.Some(lib.Bytes(body))
 		}
 		term := lib.App("Check.C05.mk", `"`+j.Type+`"`, lib.Z(int64(j.Proto)), lib.Bool(proto.Direction(j.Dir) == proto.ClientBound),
@@ -478,6 +496,8 @@ func main() {
 		known := any(nil)
 		if j, ok := gv["job"].(job); ok && j.Type == "config.TagsUpdate" {
 			known = 1
+		} else if ok && j.Type == "packet.AvailableCommands" && strings.HasPrefix(j.Kind, "brigadier-redirect-random-chain") && len(j.Body) > 1000000 {
+			known = 2 // quadratic graph resolution: the watchdog fired on a > 500 kB redirect chain
 		}
 		gv["known"] = known
 		out.GoViolation(gv)
